@@ -240,6 +240,7 @@ fn gen_case(seed: u64, tier: Tier) -> Case {
 					fail_decode: if g.rng.chance(0.15) { vec![g.rng.below(12)] } else { vec![] },
 					fail_seek: if g.rng.chance(0.08) { vec![g.rng.below(3)] } else { vec![] },
 					fail_sticky: g.rng.chance(0.5),
+					slow: 0,
 				};
 				n_sounds += 1;
 				last_len = eff_len.max(1);
